@@ -429,9 +429,12 @@ func runE2E(id int, policy string, steps []EStep, naddr int, longLeft *int, long
 		}
 		close(stop)
 	}()
-	// the host set is empty: the first connection is closed without touching the balancer
-	if !sut.WaitListening(r.addr, 5*time.Second) {
-		res.Err = "processor did not start listening"
+	// Wait until the processor listens.  The host set is empty, so the first connection that gets
+	// through is closed by the processor without touching the balancer; waiting for that close
+	// makes sure its handler has run before the first host is added (a handler running later
+	// would take a round-robin index and a backend connection of its own).
+	if err := waitProxy(r.addr, 5*time.Second); err != nil {
+		res.Err = err.Error()
 		return
 	}
 	idle := true // no round is held
@@ -517,6 +520,26 @@ func runE2E(id int, policy string, steps []EStep, naddr int, longLeft *int, long
 		res.Obs = append(res.Obs, o)
 	}
 	return
+}
+
+func waitProxy(addr string, d time.Duration) error {
+	dl := time.Now().Add(d)
+	for time.Now().Before(dl) {
+		c, err := net.DialTimeout("tcp", addr, 200*time.Millisecond)
+		if err != nil {
+			time.Sleep(time.Millisecond)
+			continue
+		}
+		c.SetReadDeadline(time.Now().Add(d))
+		buf := make([]byte, 16)
+		_, err = c.Read(buf)
+		c.Close()
+		if ne, ok := err.(net.Error); ok && ne.Timeout() {
+			return fmt.Errorf("processor accepted the first connection but did not close it (empty host set)")
+		}
+		return nil
+	}
+	return fmt.Errorf("processor did not start listening on %s", addr)
 }
 
 // c06-e2e -in behaviours.ndjson -out results.ndjson -naddr N
